@@ -543,6 +543,46 @@ def resolve_env(crate, body, term, depth=0, within=None):
     return sub(term)
 
 
+def through_getters(crate, term, depth=0):
+    """replace calls of crate-local projection functions (`fn into_headers(self) -> HeaderMap { self.headers }`: the single returned
+    term is a field path over the first parameter, nothing else happens) by the field path they denote at the call site"""
+    if depth > 3:
+        return term
+    def proj(fn):
+        c = getattr(crate, '_getter_cache', None)
+        if c is None:
+            c = crate._getter_cache = {}
+        if fn not in c:
+            c[fn] = None
+            bs = [b for b in crate.bodies if b.path == fn and b.kind not in ('promoted', 'closure', 'coroutine')]
+            if len(bs) == 1 and not bs[0].calls():
+                rt = mirlib.returned_terms(bs[0])
+                if len(rt) == 1:
+                    t = strip_refs(rt[0][1])
+                    names = []
+                    while isinstance(t, tuple) and t and t[0] in ('field', 'deref', 'ref'):
+                        if t[0] == 'field':
+                            names.append(t[2])
+                        t = t[1]
+                    if isinstance(t, tuple) and t[:2] == ('arg', 1) and names:
+                        c[fn] = list(reversed(names))
+        return c[fn]
+    def sub(t):
+        if isinstance(t, tuple):
+            if is_call(t) and isinstance(t[1], str) and t[2]:
+                names = proj(t[1])
+                if names:
+                    base = sub(t[2][0])
+                    for n in names:
+                        base = ('field', base, n)
+                    return base
+            return tuple(sub(x) for x in t)
+        if isinstance(t, list):
+            return [sub(x) for x in t]
+        return t
+    return sub(term)
+
+
 # ---------------------------------------------------------------- outcome tables from path rows
 def cons_view(cons, meta):
     """{subject: value} for the constraints that pin a subject: variant name for discriminants (also when all the other
